@@ -97,3 +97,16 @@ package keeper
 //@     Bank == types.bankA2M(old(Bank), sender, types.ModuleName, old(signFee(Store_bandtss, Other)))
 //@ ensures (addrstr(sender) == k.authority || old(curGroup(Store_bandtss)) == 0) ==> Bank == old(Bank)
 //@ loop 0: invariant forall j :: 0 <= j && j < #i ==> totalFee[j].Amount <= ext("Coins.AmountOf", feeLimit, totalFee[j].Denom)
+
+// ---- C14: block reward for signing members ------------------------------------------------------------
+// Only members of the current group that are active AND have a queued nonce (Tail > Head) are paid, each the
+// same amount, from the distribution module account; everything else moves only through bank/distribution
+// keeper calls (which conserve coins by their assumed contracts).
+//@ spec eligible(o OtherState, m tsstypes.Member) Bool = m.IsActive && types.tssDEQ(o, bech32addr(m.Address)).Tail > types.tssDEQ(o, bech32addr(m.Address)).Head
+//@ func (k Keeper) AllocateTokens
+//@ may_panic
+//@ modifies Bank, Other
+//@ loop 0: invariant forall j :: 0 <= j && j < len(validMembers) ==> (exists i :: 0 <= i && i < #i && validMembers[j] == bech32addr(members[i].Address) && eligible(Other, members[i]))
+//@ loop 0: invariant forall i :: 0 <= i && i < #i && eligible(Other, members[i]) ==> (exists j :: 0 <= j && j < len(validMembers) && validMembers[j] == bech32addr(members[i].Address))
+//@ loop 0: invariant len(validMembers) <= #i
+//@ loop 1: invariant true
